@@ -575,7 +575,7 @@ def h_legacy_step(n_ident, n_any):
 def harnesses2():
     hs = [Harness("State.notify_var_get", h_notify_var_get, units=[(ST_PY, "State.notify_var_get")])]
     for ni, na in ((1, 0), (0, 1), (1, 1)):
-        hs.append(Harness(f"legacy.step[ident={ni},any={na}]", h_legacy_step(ni, na), units=[(T_PY, "TrigInfo.trigger_watch")], max_paths=30000))
+        hs.append(Harness(f"legacy.step[ident={ni},any={na}]", with_chain_witness(h_legacy_step(ni, na)), units=[(T_PY, "TrigInfo.trigger_watch")], replay=replay_chain, max_paths=30000))
     return hs
 
 
@@ -749,6 +749,46 @@ def h_new_step(n_ident, n_any):
 _h2 = harnesses
 
 
+def with_chain_witness(h):
+    """refuted step obligations get a witness so that the whole-chain native differential is searched for a failing input"""
+    def run(eng):
+        try:
+            h(eng)
+        finally:
+            for ob in eng.obligations:
+                if ob.status == "refuted" and not getattr(ob, "witness", None):
+                    ob.witness = {"signature": "chain", "what": "chain"}
+    return run
+
+
+def replay_chain(wj):
+    from replay.native import run_native
+    import os
+    f, out = [], {}
+    saved = os.environ.get("PYTHONHASHSEED")
+    try:
+        for hs in ("0", "1", "2", "3", "4", "5"):     # set iteration order of the watched names depends on the string hash seed
+            os.environ["PYTHONHASHSEED"] = hs
+            out = run_native("c04_triggers_bounded", {"depth": 2}, timeout=600)
+            f = (out.get("failures") or [])[:1]
+            if f or out.get("error"):
+                break
+    finally:
+        if saved is None:
+            os.environ.pop("PYTHONHASHSEED", None)
+        else:
+            os.environ["PYTHONHASHSEED"] = saved
+    return {"reproduced": bool(f), "observed": f[0] if f else {"searched": out.get("bound"), "cases": out.get("cases"), "error": out.get("error")},
+            "expected": "the function runs exactly for the qualifying changes with that change's arguments", "found_by": "search of the whole-chain differential"}
+
+
+def bounded_chain(depth):
+    def run(seed):
+        from replay.native import run_native
+        return run_native("c04_triggers_bounded", {"depth": depth}, timeout=1500)
+    return run
+
+
 def bounded_classification(seed):
     from replay.native import run_native
     return run_native("c04_classification_bounded", {}, timeout=600)
@@ -756,8 +796,10 @@ def bounded_classification(seed):
 
 def harnesses():  # noqa: F811
     hs = _h2()
+    hs.append(Harness("bounded.chain[depth<=2]", bounded_chain(2), units=[(T_PY, "TrigInfo.trigger_watch"), (DS_PY, "StateTriggerDecorator._cycle"), (ST_PY, "State.update")], kind="bounded"))
+    hs.append(Harness("bounded.chain[depth<=3]", bounded_chain(3), units=[(T_PY, "TrigInfo.trigger_watch"), (DS_PY, "StateTriggerDecorator._cycle"), (ST_PY, "State.update")], kind="bounded", tier="thorough"))
     hs.append(Harness("bounded.classification", bounded_classification, units=[(T_PY, "TrigInfo.__init__"), (DS_PY, "StateTriggerDecorator.validate")], kind="bounded"))
     for ni, na in ((1, 0), (0, 1), (1, 1)):
-        hs.append(Harness(f"new.step[ident={ni},any={na}]", h_new_step(ni, na), units=[(DS_PY, "StateTriggerDecorator._cycle"),
-                  (DS_PY, "StateTriggerDecorator._check_new_state"), (DS_PY, "StateTriggerDecorator._is_trig_ok")], max_paths=30000))
+        hs.append(Harness(f"new.step[ident={ni},any={na}]", with_chain_witness(h_new_step(ni, na)), units=[(DS_PY, "StateTriggerDecorator._cycle"),
+                  (DS_PY, "StateTriggerDecorator._check_new_state"), (DS_PY, "StateTriggerDecorator._is_trig_ok")], replay=replay_chain, max_paths=30000))
     return hs
